@@ -151,3 +151,22 @@ PROPS["C13"] = {
     "not_proved": "forward direction (survives every cut) and quoted CSV fields: decided on the implementation",
     "assumptions": COMMON_ASSUME + ["encoding/csv behaves as the quote-free hand model (validated by correspondence)", "bufio.Reader.Reset discards all state"],
 }
+
+PROPS["C02"] = {
+    "channels": [{"cmd": "run-c02"}, {"cmd": "run-det", "shards": 16}],
+    "cone": r"^MISMATCH (walk|harness|driver)",
+    "data_obligations": ["flatten tree0 = ids of nodes", "height tree0 = 4", "every registered type and alias is a lower-case token/token", "errMIME is the bare root"],
+    "rule": "(a) mime.FormatMediaType -> mime.ParseMediaType on every 1-byte label, a hostile list (quotes, separators, backslash, CR/LF, NUL, DEL, non-ASCII, invalid UTF-8, 4 kB) and random 1-6 byte labels: the label must come back unchanged; (b) HTML / XML documents declaring those labels through Detect at limits {3072, 0, 40}, and every detector seed: String() must parse, (type, extension) must be a registered format, the only parameter is charset and only on the three text types, ancestors parameter-free and registered, chain ends at application/octet-stream (extracted predicate c02_judge); (c) failing readers / missing file: the value is exactly application/octet-stream; non-trivial = result carries a charset",
+    "proved": "the reported chain consists of registered formats, is 1-4 long and rooted (all verdict functions); registered names are media types; error value",
+    "not_proved": "FormatMediaType/ParseMediaType round trip (Go standard library): checked on the implementation",
+    "assumptions": COMMON_ASSUME + ["mime.FormatMediaType / mime.ParseMediaType round-trip every parameter value (checked on all generated labels)"],
+}
+PROPS["C15"] = {
+    "channels": [{"cmd": "run-c15"}],
+    "cone": r"^MISMATCH (harness|driver)",
+    "data_obligations": ["every registered name resolves through lookup to a node that Is it", "names normalised"],
+    "rule": "all 258 registered types and aliases x 8 decorations (upper / mixed case, surrounding blanks and tabs, parameter lists incl. quoted strings, RFC 2231 forms, q-values) through (*MIME).Is of the owning node, EqualsAny in both argument positions and Lookup; exactness: every node x every registered name (46k Is calls) against is_model with the normalisation supplied by mime.ParseMediaType; detection results incl. quoted / RFC 2231-encoded charset parameters: d.Is(d.String()), EqualsAny(d.String(), d.String()), Lookup(bare type).Is(d.String()); non-trivial = decorated name or own name",
+    "proved": "is_spec (exactly type-or-alias), result_is_itself, every_name_resolves and names_normalised on the regenerated tree",
+    "not_proved": "mime.ParseMediaType's normalisation (case, white space, parameters) is the Go standard library's: an oracle here",
+    "assumptions": COMMON_ASSUME + ["mime.ParseMediaType is the normaliser the property refers to"],
+}
